@@ -11,7 +11,6 @@
   statement block and forwards every statement/block/gap cursor unchanged (`Edit.touch`).
 
   Everything is mirrored literally, quirks included (see docs/C06.md):
-    * `Block._forward_wrap.fwd_block` uses `blk_rng.start` (not `rng.start`) as the wrapper index;
     * `Block._forward_move` shifts the gap path at the first difference even when that
       difference is above the moved block's own list;
     * `Block._forward_move` forwards a block cursor through its two end points (with the asserts);
@@ -233,8 +232,7 @@ def forwardWrap (bp : Path) (a : Attr) (lo hi : Nat) (wrapAttr : Attr) : Fwd :=
       if blo ≥ hi then .ok ([], a, wrapShift lo hi blo, wrapShift lo hi bhi)
       else if bhi ≤ lo then .ok ([], a, blo, bhi)
       else if (lo ≤ blo ∧ blo < hi) ∧ (bhi ≠ 0 ∧ lo ≤ bhi - 1 ∧ bhi - 1 < hi) then
-        -- NB: `(attr, blk_rng.start)`, not `(attr, rng.start)`
-        .ok ([(a, blo)], wrapAttr, blo - lo, bhi - lo)
+        .ok ([(a, lo)], wrapAttr, blo - lo, bhi - lo)
       else if (blo ≤ lo ∧ lo < bhi) ∧ (hi ≠ 0 ∧ blo ≤ hi - 1 ∧ hi - 1 < bhi) then
         .ok ([], a, blo, bhi + 1 - (hi - lo))
       else .error .invalid)
@@ -248,7 +246,8 @@ def wrap (t : Tree) (bp : Path) (a : Attr) (lo hi : Nat) (ctor : List Tree → T
   (t', forwardWrap bp a lo hi wrapAttr)
 
 /-- the hypothesis `_forward_wrap` relies on: the constructor puts the wrapped statements
-    directly into the wrapper's `wrapAttr` block (`DoAddLoop(guard=True)` violates it) -/
+    directly into the wrapper's `wrapAttr` block (`DoAddLoop(guard=True)` violated it before
+    7d3e13bb; it now performs two direct wraps and composes the forwardings) -/
 def WrapDirect (ctor : List Tree → Tree) (wrapAttr : Attr) : Prop :=
   ∀ nodes, (ctor nodes).children wrapAttr = nodes
 
